@@ -14,6 +14,11 @@ import Driver.Common
                                                                            (a specification libc rejects when the "C" locale cannot encode the value)
      A …same as P…                                                         print_to_with on a plain String in a forked child of the harness; an argument `Z 0` is the
                                                                            String itself.  `O A oob=1` (undefined behaviour) or `O A oob=0 exc=<e>`
+     V <start> <old> <fmt> <nargs> <arg>… T 0                             a well-formed format outside the printf grammar (`*` width): `O V exc=<e> calls=<…>` — the
+                                                                           calls only; libc's text for them is not a function of the arguments (KF-C14-star-width)
+     B …same as P…                                                         plain String sink, start may lie beyond the end: `O B exc=<e> pos=<p> cstr=<the C string afterwards>`
+                                                                           (`cValueAfter`; KF-C14-start-beyond-end)
+     Q …same as P…                                                         File sink: `O Q exc=<e> leaked=<bytes of fmt_buf still allocated>` (`Result.leaked`; KF-C14-fmtbuf-leak)
    arg ::= i <int64> | f <16 hex digits: bits of the double> | s <bytes> | A <n> <arg>… | U <n> <arg>… | L <n> <arg>…
          | H <n> (<key> <val>)*n  Table Int → scalar built by `set` in this order (iteration order = slot order, computed with the
                                   Table model of engine C02, Cello/Table.lean)   | R <n> (<key> <val>)*n  Tree (iteration order = descending key order)
@@ -256,8 +261,8 @@ partial def hasSink : Obj → Bool
   | .box x => hasSink x
   | _ => false
 
-def validOp (op : Op) : Bool :=
-  op.start ≤ op.old.length && op.start ≤ 1000000 && !op.old.contains NUL && !op.fmt.contains NUL &&
+def validOp (op : Op) (beyond : Bool := false) : Bool :=
+  (op.start ≤ op.old.length || (beyond && op.start ≤ op.old.length + 64)) && op.start ≤ 1000000 && !op.old.contains NUL && !op.fmt.contains NUL &&
   op.args.length ≤ 1000 && op.args.all validObj
 
 /-- the grammar of the J ops: the property's printf grammar, plus `l` in front of `c` -/
@@ -298,6 +303,32 @@ def runA (op : Op) : IO Unit := do
   if r.oc = .oob then IO.println "O A oob=1" else IO.println s!"O A oob=0 exc={excName r.oc}"
   IO.println s!"R len={op.fmt.length} rd={r.marks.rdMax} wr={r.marks.wrMax} oc={excName r.oc} specs={(op.args.length)} plain={plainArgs depthFuel op.args}"
 
+/-- op V: a well-formed format with a specification outside the printf grammar -/
+def runV (op : Op) : IO Unit := do
+  match parseFmt cfg.conv op.fmt with
+  | none => IO.println "O bad-op"
+  | some segs =>
+    let prim := primOf []
+    let r := printTo cfg prim scfg depthFuel op.fmt op.args ⟨.str op.old, op.start, []⟩
+    IO.println s!"O V exc={excName r.oc} calls={showCalls r.out.calls}"
+    IO.println s!"R len={op.fmt.length} rd={r.marks.rdMax} wr={r.marks.wrMax} printfOK={segs.all Seg.printfOK} inContract={r.out.calls.all Call.inContract} specs={nspecs segs}"
+
+/-- op B: a String sink written from a start position that may lie beyond its end -/
+def runB (op : Op) : IO Unit := do
+  let prim := primOf op.tab
+  let r := printTo cfg prim scfg depthFuel op.fmt op.args ⟨.str op.old, op.start, []⟩
+  let txt := textOf prim r.out.calls
+  let cval := if accepted prim r.out.calls = [] then op.old else cValueAfter op.old op.start txt
+  IO.println s!"O B exc={excName r.oc} pos={posStr r} cstr={hexOf cval}"
+  IO.println s!"R len={op.fmt.length} rd={r.marks.rdMax} wr={r.marks.wrMax} beyond={decide (op.start > op.old.length)} specs={(op.args.length)}"
+
+/-- op Q: what stays allocated of `fmt_buf` -/
+def runQ (op : Op) : IO Unit := do
+  let prim := primOf op.tab
+  let r := printTo cfg prim scfg depthFuel op.fmt op.args ⟨.file (op.old.take op.start), op.start, []⟩
+  IO.println s!"O Q exc={excName r.oc} leaked={r.leaked op.fmt}"
+  IO.println s!"R len={op.fmt.length} rd={r.marks.rdMax} wr={r.marks.wrMax} oc={excName r.oc} specs={(op.args.length)}"
+
 def runM (op : Op) : IO Unit := do
   let prim := primOf []
   let r := printTo cfg prim scfg depthFuel op.fmt op.args ⟨.str op.old, op.start, []⟩
@@ -322,6 +353,18 @@ def main (args : List String) : IO Unit := do
     | "A" :: ws =>
       match FmtDrv.parseOp ws true with
       | some op => if FmtDrv.validOp op then FmtDrv.runA op else IO.println "O bad-op"
+      | none => IO.println "O bad-op"
+    | "V" :: ws =>
+      match FmtDrv.parseOp ws true with
+      | some op => if FmtDrv.validOp op && !op.args.any FmtDrv.hasSink then FmtDrv.runV op else IO.println "O bad-op"
+      | none => IO.println "O bad-op"
+    | "B" :: ws =>
+      match FmtDrv.parseOp ws true with
+      | some op => if FmtDrv.validOp op true && !op.args.any FmtDrv.hasSink && inGrammar FmtDrv.cfg.conv op.fmt then FmtDrv.runB op else IO.println "O bad-op"
+      | none => IO.println "O bad-op"
+    | "Q" :: ws =>
+      match FmtDrv.parseOp ws true with
+      | some op => if FmtDrv.validOp op && !op.args.any FmtDrv.hasSink && inGrammar FmtDrv.cfg.conv op.fmt then FmtDrv.runQ op else IO.println "O bad-op"
       | none => IO.println "O bad-op"
     | "M" :: ws =>
       match FmtDrv.parseOp ws false with
